@@ -31,10 +31,27 @@ Round 10 (second hunt):
       a returned container is never the argument itself                                           unchanged answers       C04 C10 C09
   E20 requests that need nothing: top up a well to the volume just dispensed into it; the
       concentration a solution was made with (from / dilute)                                      accepted                C18 C03 C11 C12
+Round 11 (third hunt):
+  E21 one bottle dispensed into every well of a 384-well plate; nothing leaves bottle + plate       answer 0, not refused   C09
+  E22 dilution factors beyond (stored amount / 1e-10); a total at the stock's own concentration;
+      a trace solute stated by concentration in a total by mass; a stated zero                       delivered / refused     C12 C05 C03
+  E23 the caller's table owns its labels; a substance named 'Total'; plate[:] and plate answer
+      get_moles alike                                                                                unchanged / agree       C10 C04
+  E24 '1 mg/N U' is N U/mg; a specific activity of zero; a prefix glued to the percent sign;
+      a concentration that overflows once its prefixes are applied                                   equal / ValueError      C06 C14
+  E25 a negative amount in a unit that does not measure the substance; activity units for a
+      non-enzyme (dilute); Recipe.create_solution_from at the neat stock's concentration            ValueError / bake = eager   C04 C03 C08
+  E26 the container bake returns under a new name answers the tracking queries; a plate of
+      another geometry under a declared name                                                        same answers / ValueError   C15 C09 C16
+  E27 (L / mol storage) an enzyme moved by mass: nanograms arrive as stated                          C02 C03
+  E28 (zero-volume solids) a solid as the diluent of create_solution_from; fill_to / dilute with a
+      solid state a mass; (any configuration) a recipe create_container step states its contents     ValueError / stated     C12 C19
 """
 from __future__ import annotations
 
 import math
+
+N_FAMILIES = 28
 
 
 def edges(rng, case, idx):
@@ -62,7 +79,8 @@ def edges(rng, case, idx):
                 raise
             return None, e
 
-    fam = idx % 20
+    only = (case.get('params') or {}).get('only')
+    fam = only[idx % len(only)] if only else idx % N_FAMILIES
     M.count('EDGE')
     with M.active(case):
         if fam == 0:
@@ -539,3 +557,286 @@ def edges(rng, case, idx):
                 if exc3 is not None:
                     viol(['C18', 'C03', 'C11'], f'C11:dilute_to_the_concentration_it_was_made_with_refused:{type(exc3).__name__}', {'solute_molar_mass': mw, 'concentration': conc, 'exc': repr(exc3)[:120]})
             M.note_nontrivial(case['prop'], ('E20', mw, conc))
+        elif fam == 20:
+            # ---- E21
+            M.bucket(case['prop'] + '/edge/E21_one_bottle_into_384_wells')
+            for q in rng.sample(['3 uL', '1 uL', '7 uL', '2.5 uL', '10 uL', '0.3 uL', '12 uL', '0.7 uL', '5 uL', '30 uL'], 3):
+                bottle = C('bottle', '2 L', [(water, rng.choice(['1 L', '0.5 L', '1.5 L'])), (salt, '5 g')])
+                plate = pp.Plate('plate', '100 uL', rows=16, columns=24)
+                r = pp.Recipe().uses(bottle, plate)
+                r.transfer(bottle, plate, q)
+                r.bake()
+                for sub in (water, salt):
+                    res, exc = attempt(lambda: r.get_substance_used(sub, destinations=[bottle, plate], unit='umol'))
+                    if exc is not None or abs(res) > 1e-3:
+                        viol(['C09', 'C18', 'C17'], 'C09:net_change_of_zero_refused_as_a_decrease:one_to_many', {'per_well': q, 'substance': sub.name, 'answer': res, 'exc': repr(exc)[:140]})
+                        break
+            M.note_nontrivial(case['prop'], ('E21', idx))
+        elif fam == 21:
+            # ---- E22
+            oligo = S.solid('oligo', 6000.0)
+            M.bucket(case['prop'] + '/edge/E22_dilution_factor_beyond_the_stored_digits')
+            for stock_c, stock_v, target, total in (('10 uM', '5 uL', '19 pM', '10 mL'), ('10 uM', '5 uL', '7 pM', '10 mL'), ('10 mM', '50 uL', '1 pM', '10 mL'),
+                                                    ('10 uM', '5 uL', '21 pM', '10 mL'), ('1 uM', '2 uL', '3 pM', '5 mL'), ('100 uM', '1 uL', '40 pM', '20 mL')):
+                stock, exc = attempt(lambda: C.create_solution(oligo, water, concentration=stock_c, total_quantity=stock_v))
+                if exc is not None:
+                    continue
+                res, exc = attempt(lambda: C.create_solution_from(stock, oligo, target, water, total))
+                want = R.parse_concentration(target)[0] * R.parse_quantity(total)[0] / cf.mol_prefix         # storage units
+                if want < 200 * cf.q:
+                    continue
+                if exc is not None:
+                    viol(['C12', 'C03'], f'C12:feasible_extreme_dilution_refused:{type(exc).__name__}', {'stock': [stock_c, stock_v], 'target': target, 'total': total, 'exc': repr(exc)[:120]})
+                    continue
+                got = res[1].contents.get(oligo, 0.0)
+                if abs(got - want) > 0.02 * want + 4 * cf.q:
+                    viol(['C12', 'C03'], 'C12:extreme_dilution_does_not_hold_the_stated_concentration', {'stock': [stock_c, stock_v], 'target': target, 'total': total, 'solute_stored': got, 'expected_stored': want})
+            M.bucket(case['prop'] + '/edge/E22_total_at_the_stocks_own_concentration')
+            for conc, tot in (('1 ng/L', '50 mL'), ('3 ng/L', '20 mL'), ('1 ug/L', '50 mL'), ('10 ng/L', '10 mL')):
+                stock, exc = attempt(lambda: C.create_solution(oligo, water, concentration=conc, total_quantity='1 L'))
+                if exc is not None:
+                    continue
+                res, exc = attempt(lambda: C.create_solution_from(stock, oligo, conc, water, tot))
+                if exc is not None:
+                    viol(['C12', 'C03'], f'C12:own_concentration_refused:{type(exc).__name__}', {'concentration': conc, 'total': tot, 'exc': repr(exc)[:120]})
+                    continue
+                vol = R.measure(res[1].contents, 'L')
+                if abs(vol - R.parse_quantity(tot)[0]) > 1e-5 * R.parse_quantity(tot)[0]:
+                    viol(['C12', 'C03'], 'C12:total_quantity_not_met:own_concentration', {'concentration': conc, 'stated_total': tot, 'got_L': vol})
+            M.bucket(case['prop'] + '/edge/E22_trace_concentration_in_a_total_by_mass')
+            for conc, tot in (('1 pM', '10 kg'), ('0.001 pM', '300 kg'), ('0.001 pM', '1000 kg'), ('2 pM', '25 kg'), ('0.05 pM', '100 kg'), ('1 pM', '500 mol')):
+                res, exc = attempt(lambda: C.create_solution(oligo, water, concentration=conc, total_quantity=tot))
+                if exc is not None:
+                    viol(['C05', 'C03'], f'C05:feasible_request_refused:trace_concentration_in_a_total_by_mass:{type(exc).__name__}', {'concentration': conc, 'total': tot, 'exc': repr(exc)[:120]})
+                    continue
+                got = R.concentration(res.contents, oligo, 'mol', 'L')
+                want = R.parse_concentration(conc)[0]
+                stored_res = cf.q * cf.mol_prefix / max(R.measure(res.contents, 'L'), 1e-300)
+                if abs(got - want) > 1e-3 * want + 2 * stored_res:
+                    viol(['C05', 'C03'], 'C05:stated_concentration_not_met:trace_in_a_total_by_mass', {'concentration': conc, 'total': tot, 'got_mol_per_L': got, 'want': want})
+            M.bucket(case['prop'] + '/edge/E22_a_stated_zero')
+            for kw in ({'concentration': '0 M', 'total_quantity': '10 mL'}, {'quantity': '0 g', 'total_quantity': '10 mL'}, {'quantity': '0 mol', 'concentration': '1 M'},
+                       {'concentration': '0 %w/w', 'total_quantity': '10 g'}):
+                res, exc = attempt(lambda: C.create_solution(salt, water, **kw))
+                if exc is None and res.contents.get(salt, 0.0) > 0:
+                    viol(['C05', 'C03'], 'C05:stated_zero_comes_out_positive', {'kwargs': kw, 'salt_stored': res.contents.get(salt)})
+                elif exc is not None and not isinstance(exc, ValueError):
+                    viol(['C05', 'C03'], f'C05:refusal_not_ValueError:stated_zero:{type(exc).__name__}', {'kwargs': kw, 'exc': repr(exc)[:120]})
+            M.note_nontrivial(case['prop'], ('E22', idx))
+        elif fam == 22:
+            # ---- E23
+            M.bucket(case['prop'] + '/edge/E23_the_callers_table_owns_its_labels')
+            def mk():
+                return C('stock', '10 mL', [(water, '5 mL'), (salt, '1 g'), (kcl, '2 g')])
+            stock = mk()
+            df, exc = attempt(lambda: stock.dataframe())
+            if exc is None:
+                first = [str(i_) for i_ in df.index]
+                cols = [str(c_) for c_ in df.columns]
+                def scribble():
+                    df.index.values[1] = 'ethanol'
+                    df.columns.values[0] = 'gallons'
+                attempt(scribble)
+                again, exc2 = attempt(lambda: mk().dataframe())
+                mine, exc3 = attempt(lambda: stock.dataframe())
+                for t_ in (again, mine):
+                    if t_ is not None and ([str(i_) for i_ in t_.index] != first or [str(c_) for c_ in t_.columns] != cols):
+                        viol(['C10', 'C04', 'C19'], 'C04:editing_the_labels_of_the_returned_table_changes_what_containers_report', {'index_was': first, 'index_now': [str(i_) for i_ in t_.index], 'columns_now': [str(c_) for c_ in t_.columns]})
+                        break
+            M.bucket(case['prop'] + '/edge/E23_a_substance_named_Total')
+            tot = S.solid('Total', 120.0)
+            c = C('c', '10 mL', [(water, '5 mL'), (tot, '3 mmol'), (salt, '1 mmol')])
+            df, exc = attempt(lambda: c.dataframe())
+            if exc is None:
+                if sum(1 for i_ in df.index if str(i_).startswith('Total')) != 2:      # (the substance, and the totals)
+                    viol(['C10', 'C19'], 'C19:container_table_loses_the_row_of_a_substance_named_Total', {'index': [str(i_) for i_ in df.index], 'substances': [s_.name for s_ in c.contents]})
+            M.bucket(case['prop'] + '/edge/E23_slice_and_plate_answer_get_moles_alike')
+            brine = C('brine', initial_contents=[(water, '10 mL'), (salt, '2 mmol')])
+            _, plate = pp.Plate.transfer(brine, pp.Plate('p', '100 uL', rows=2, columns=3), rng.choice(['10 uL', '25 uL', '50 uL']))
+            res, exc = attempt(lambda: (plate.get_moles(salt), plate[:].get_moles(salt), plate.get_moles(salt, cf.moles_display_unit() if callable(getattr(cf, 'moles_display_unit', None)) else getattr(cf, 'moles_display_unit', 'umol'))))
+            if exc is not None:
+                viol(['C10'], f'C10:get_moles_raised:{type(exc).__name__}', {'exc': repr(exc)[:120]})
+            else:
+                import numpy as _np
+                if not (_np.allclose(res[0], res[1], rtol=1e-12, atol=0) and _np.allclose(res[0], res[2], rtol=1e-12, atol=0)):
+                    viol(['C10', 'C18'], 'C10:slice_and_plate_answer_get_moles_differently_by_default', {'plate': _np.asarray(res[0]).tolist(), 'slice': _np.asarray(res[1]).tolist(), 'in_display_unit': _np.asarray(res[2]).tolist()})
+            M.note_nontrivial(case['prop'], ('E23', idx))
+        elif fam == 23:
+            # ---- E24
+            M.bucket(case['prop'] + '/edge/E24_mass_per_N_units')
+            ns = rng.sample(range(1, 101), 12) + [7]
+            for n in ns:
+                a, ea = attempt(lambda: S.enzyme('lipase', f'{n} U/mg'))
+                b, eb = attempt(lambda: S.enzyme('lipase', f'1 mg/{n} U'))
+                c_, ec = attempt(lambda: S.enzyme('lipase', f'2 g/{2 * n} kU'))
+                if ea is not None or eb is not None or ec is not None:
+                    viol(['C14', 'C06'], 'C14:wellformed_specific_activity_refused', {'n': n, 'excs': [repr(e_)[:80] for e_ in (ea, eb, ec)]})
+                    break
+                if not (a == b and hash(a) == hash(b) and a == c_):
+                    viol(['C06', 'C14'], 'C14:one_specific_activity_spelt_differently_is_another_substance', {'spellings': [f'{n} U/mg', f'1 mg/{n} U', f'2 g/{2 * n} kU'], 'values': [a.specific_activity, b.specific_activity, c_.specific_activity]})
+                    break
+            M.bucket(case['prop'] + '/edge/E24_specific_activity_of_zero')
+            for sp in ('0 U/g', '0 U/mg', '0.0 kU/g', '0 g/U', '0 mg/5 U'):
+                res, exc = attempt(lambda: S.enzyme('ghost', sp))
+                if exc is None:
+                    viol(['C14', 'C06', 'C03'], 'C14:specific_activity_of_zero_accepted', {'spelling': sp, 'stored': res.specific_activity})
+                elif not isinstance(exc, ValueError):
+                    viol(['C14', 'C06'], f'C14:refusal_not_ValueError:specific_activity_of_zero:{type(exc).__name__}', {'spelling': sp})
+            M.bucket(case['prop'] + '/edge/E24_prefix_glued_to_the_percent_sign')
+            brine = C('brine', '100 L', [(water, '10 mL'), (salt, '1 g')])
+            for sp in ('5 m%w/w', '5 k%w/w', '5 u%v/v', '5 m%w/v', '1 c%w/w', '2 da%v/v'):
+                for label, fn in (('parse_concentration', lambda: pp.Unit.parse_concentration(sp)), ('create_solution', lambda: C.create_solution(salt, water, concentration=sp, total_quantity='10 mL')),
+                                  ('dilute', lambda: brine.dilute(salt, sp, water))):
+                    res, exc = attempt(fn)
+                    if exc is None:
+                        viol(['C14', 'C03'], f'C14:malformed_concentration_accepted:{label}:prefixed_percent', {'spelling': sp, 'returned': repr(res)[:100]})
+                    elif not isinstance(exc, ValueError):
+                        viol(['C14'], f'C14:refusal_not_ValueError:prefixed_percent:{type(exc).__name__}', {'spelling': sp, 'where': label})
+            M.bucket(case['prop'] + '/edge/E24_overflow_once_the_prefixes_are_applied')
+            for sp in ('1e308 kmol/L', '1e308 mol/uL', '1e307 kg/mL', '1e306 Mg/uL', '1e308 kU/L'):
+                res, exc = attempt(lambda: pp.Unit.parse_concentration(sp))
+                if exc is None and (res[0] != res[0] or res[0] in (float('inf'), float('-inf'))):
+                    viol(['C14', 'C03'], 'C14:malformed_concentration_accepted:parse_concentration:overflows_to_infinity', {'spelling': sp, 'returned': repr(res)})
+                elif exc is not None and not isinstance(exc, ValueError):
+                    viol(['C14'], f'C14:refusal_not_ValueError:overflow:{type(exc).__name__}', {'spelling': sp})
+            M.note_nontrivial(case['prop'], ('E24', idx))
+        elif fam == 24:
+            # ---- E25
+            lys = S.enzyme('lysozyme', '10 U/mg')
+            M.bucket(case['prop'] + '/edge/E25_negative_amount_in_a_unit_that_does_not_measure_the_substance')
+            for sub, q in ((lys, '-5 mol'), (lys, '-1 mmol'), (lys, '-3 umol')):
+                res, exc = attempt(lambda: C('c', initial_contents=[(water, '1 mL'), (sub, q)]))
+                if exc is None:
+                    viol(['C04', 'C03', 'C01'], 'C03:negative_amount_accepted:constructor:unit_that_does_not_measure', {'substance': sub.name, 'quantity': q})
+                r = pp.Recipe()
+                res, exc = attempt(lambda: (r.create_container('c', '10 mL', [(water, '1 mL'), (sub, q)]), r.bake()))
+                if exc is None:
+                    viol(['C04', 'C03', 'C08'], 'C03:negative_amount_accepted:Recipe.create_container:unit_that_does_not_measure', {'substance': sub.name, 'quantity': q})
+            M.bucket(case['prop'] + '/edge/E25_activity_units_for_a_non_enzyme')
+            brine = C('brine', '1 L', [(water, '10 mL'), (salt, '1 g')])
+            _, exc_e = attempt(lambda: brine.dilute(salt, '1 U/mL', water))
+            r = pp.Recipe().uses(brine)
+            _, exc_b = attempt(lambda: (r.dilute(brine, salt, '1 U/mL', water), r.bake()))
+            for where, e_ in (('dilute', exc_e), ('Recipe.dilute', exc_b)):
+                if e_ is None or not isinstance(e_, ValueError):
+                    viol(['C08', 'C03', 'C11'], f'C03:activity_concentration_of_a_non_enzyme:{where}:' + ('accepted' if e_ is None else type(e_).__name__), {'exc': repr(e_)[:120]})
+            M.bucket(case['prop'] + '/edge/E25_recipe_create_solution_from_at_the_neat_stock')
+            neat = C('neat', initial_contents=[(eth, '100 mL')])
+            for target in ('100 %v/v', '0.789 g/mL', '0 M', '100.0 %w/w'):
+                e_, exc_e = attempt(lambda: C.create_solution_from(neat, eth, target, water, '10 mL', 'dil'))
+                r = pp.Recipe().uses(neat)
+                b_, exc_b = attempt(lambda: (r.create_solution_from(neat, eth, target, water, '10 mL', 'dil'), r.bake())[1])
+                if (exc_e is None) != (exc_b is None) or (exc_e is None and b_['dil'].contents != e_[1].contents):
+                    viol(['C08', 'C12'], 'C08:bake_and_eager_disagree:create_solution_from_at_the_neat_stock', {'target': target, 'eager': repr(exc_e)[:100], 'bake': repr(exc_b)[:100]})
+            M.note_nontrivial(case['prop'], ('E25', idx))
+        elif fam == 25:
+            # ---- E26
+            M.bucket(case['prop'] + '/edge/E26_the_renamed_container_answers_the_tracking_queries')
+            r = pp.Recipe()
+            vol = rng.choice(['5 mL', '2 mL', '8 mL'])
+            st = r.create_solution(salt, water, concentration='1 M', total_quantity=vol, name='stock')
+            r.start_stage('thin')
+            r.dilute(st, salt, rng.choice(['0.5 M', '0.25 M', '0.1 M']), water, new_name='working')
+            r.end_stage('thin')
+            res, exc = attempt(lambda: r.bake())
+            if exc is None:
+                returned = [o_ for o_ in res.values() if o_.name == 'working']
+                if returned:
+                    got = returned[0]
+                    for label, fn in (('get_container_flows', lambda o_: r.get_container_flows(o_, 'thin', 'mL')), ('get_amount_remaining', lambda o_: r.get_amount_remaining(o_, 'all', 'mL')),
+                                      ('get_substance_used', lambda o_: r.get_substance_used(water, 'thin', 'mL', destinations=[o_]))):
+                        a_, ea = attempt(lambda: fn(st))
+                        b_, eb = attempt(lambda: fn(got))
+                        if ea is None and (eb is not None or a_ != b_):
+                            viol(['C15', 'C09'], f'C15:the_container_bake_returned_is_not_known_to:{label}', {'declared_object_answer': a_, 'returned_object_answer': b_, 'exc': repr(eb)[:120]})
+            M.bucket(case['prop'] + '/edge/E26_a_plate_of_another_geometry_under_a_declared_name')
+            p = pp.Plate('p', '100 uL')
+            w = C('w', initial_contents=[(water, '10 mL')])
+            other = pp.Plate('p', '100 uL', rows=rng.choice([2, 3, 4]), columns=rng.choice([2, 3, 16]))
+            for label, fn in (('transfer_into_its_well', lambda r_: r_.transfer(w, other['B:2'], '1 uL')), ('transfer_into_it', lambda r_: r_.transfer(w, other, '1 uL')),
+                              ('remove', lambda r_: r_.remove(other)), ('fill_to', lambda r_: r_.fill_to(other, water, '5 uL')), ('transfer_from_its_row', lambda r_: r_.transfer(other[1], w, '1 uL'))):
+                r = pp.Recipe().uses(p, w)
+                _, exc = attempt(lambda: fn(r))
+                if exc is None:
+                    viol(['C16'], f'C16:undeclared_object_accepted:plate_of_another_geometry:{label}', {'declared': [8, 12], 'given': [other.n_rows, other.n_columns]})
+                elif not isinstance(exc, ValueError):
+                    viol(['C16'], f'C16:undeclared_object_refused_with:{type(exc).__name__}', {'where': label})
+            M.note_nontrivial(case['prop'], ('E26', idx))
+        elif fam == 26:
+            # ---- E27 (meant for L / mol storage; true under every configuration)
+            lys = S.enzyme('lysozyme', rng.choice(['10 U/mg', '50 U/mg', '2 U/mg']))
+            M.bucket(case['prop'] + '/edge/E27_an_enzyme_moved_by_mass')
+            sa = R.specific_activity_of(lys)        # U per g
+            for held, asked, feasible in (('100 ng', '1.234 ng', True), ('100 ng', '0.04 ng', True), ('1.25 ng', '1.25 ng', True), ('1.20 ng', '1.24 ng', False),
+                                          ('10 ng', '9.87 ng', True), ('3 ug', '12.5 ng', True), ('1 ng', '1.04 ng', False)):
+                src = C('src', initial_contents=[(lys, held)])
+                dst = C('dst')
+                res, exc = attempt(lambda: C.transfer(src, dst, asked))
+                want_U = R.parse_quantity(asked)[0] * sa
+                if want_U < 1e4 * cf.q:
+                    continue            # (below what the stored activity can resolve to four digits)
+                if feasible:
+                    if exc is not None:
+                        viol(['C03', 'C02'], f'C03:feasible_mass_transfer_of_an_enzyme_refused:{type(exc).__name__}', {'held': held, 'asked': asked, 'exc': repr(exc)[:120]})
+                        continue
+                    got_U = res[1].contents.get(lys, 0.0)
+                    if abs(got_U - want_U) > 1e-3 * want_U:
+                        viol(['C02', 'C03', 'C01'], 'C02:mass_transfer_of_an_enzyme_moves_another_mass', {'held': held, 'asked': asked, 'arrived_ng': got_U / sa * 1e9})
+                elif exc is None or not isinstance(exc, ValueError):
+                    viol(['C03', 'C02'], 'C03:overdraw_by_mass_of_an_enzyme_accepted' if exc is None else f'C03:refusal_not_ValueError:{type(exc).__name__}', {'held': held, 'asked': asked})
+            M.note_nontrivial(case['prop'], ('E27', idx))
+        elif fam == 27:
+            # ---- E28
+            from pv.instr import tokens, token_matches, by_base
+            suc = S.solid('sucrose', 342.3)
+            zero_volume = R.density_of(suc) == float('inf')
+            if zero_volume:
+                M.bucket(case['prop'] + '/edge/E28_a_diluent_without_volume')
+                stock = C.create_solution(salt, water, concentration='1 M', total_quantity='10 mL')
+                for target, tot in (('0.5 M', '10 mL'), ('0.1 M', '5 mL'), ('10 %w/w', '5 g')):
+                    res, exc = attempt(lambda: C.create_solution_from(stock, salt, target, suc, tot))
+                    if exc is None:
+                        viol(['C12', 'C03', 'C19'], 'C12:diluent_without_volume_accepted', {'target': target, 'total': tot, 'instructions': (res[1].instructions or '')[-120:]})
+                    elif not isinstance(exc, ValueError):
+                        viol(['C12', 'C03'], f'C12:refusal_not_ValueError:diluent_without_volume:{type(exc).__name__}', {'target': target})
+            M.bucket(case['prop'] + '/edge/E28_fill_and_dilute_with_a_solid_state_what_was_added' + ('/zero_volume' if zero_volume else ''))
+            c = C('c', '1 L', [(water, rng.choice(['1 mL', '2 mL', '5 mL']))])
+            for label, fn, solv in (('fill_to', lambda: c.fill_to(suc, rng.choice(['8 g', '12 g', '6.5 g'])), suc),
+                                    ('dilute', lambda: C('d', '1 L', [(water, '1 mL'), (salt, '1 g')]).dilute(water, rng.choice(['40 %w/w', '25 %w/w']), salt), salt)):
+                res, exc = attempt(fn)
+                if exc is not None:
+                    continue
+                line = (res.instructions or '').splitlines()[-1]
+                start = c if label == 'fill_to' else C('d', '1 L', [(water, '1 mL'), (salt, '1 g')])
+                actual = by_base({solv: res.contents.get(solv, 0.0) - start.contents.get(solv, 0.0)})
+                if not any(token_matches(t_, actual) and actual.get(t_[2]) for t_ in tokens(line)):
+                    viol(['C19'], f'C19:{label}_line_does_not_state_the_amount_of_a_solid_added', {'line': line, 'actual_added_base_units': actual})
+            r = pp.Recipe()
+            r.uses(c)
+            plate = pp.Plate('pl', '1 mL', rows=2, columns=2)
+            r.uses(plate)
+            r.transfer(c, plate, '10 uL')
+            r.fill_to(plate, suc, '50 mg')
+            r.fill_to(c, suc, '2 g')
+            res, exc = attempt(lambda: r.bake())
+            if exc is None:
+                for step, added_g in ((r.steps[1], 0.04), (r.steps[2], None)):
+                    text = step.instructions or ''
+                    if added_g is None:
+                        added_g = R.measure({suc: res['c'].contents.get(suc, 0.0)}, 'g')
+                    actual = {'g': added_g, 'L': added_g / R.density_of(suc) / 1000.0 if not zero_volume else 0.0}
+                    if not any(t_[2] in actual and actual[t_[2]] and token_matches(t_, actual) for t_ in tokens(text)):
+                        viol(['C19'], 'C19:recipe_step_instruction_wrong:fill_to:amount_of_a_solid_added', {'instruction': text, 'actual_added_base_units': actual})
+            M.bucket(case['prop'] + '/edge/E28_a_create_container_step_states_its_contents')
+            r = pp.Recipe()
+            ml, g_ = rng.choice([1, 2, 5]), rng.choice([1, 3, 0.5])
+            r.create_container('mix', '10 mL', [(water, f'{ml} mL'), (salt, f'{g_} g')])
+            res, exc = attempt(lambda: r.bake())
+            if exc is None:
+                text = r.steps[0].instructions or ''
+                toks = tokens(text)
+                ok_w = 'H2O' in text and any(token_matches(t_, {'L': ml * 1e-3}) for t_ in toks if t_[2] == 'L')
+                ok_s = 'NaCl' in text and any(token_matches(t_, {'g': g_}) for t_ in toks if t_[2] == 'g')
+                if not (ok_w and ok_s):
+                    viol(['C19'], 'C19:recipe_step_instruction_wrong:create_container:initial_contents', {'instruction': text, 'contents': [f'{ml} mL H2O', f'{g_} g NaCl']})
+            M.note_nontrivial(case['prop'], ('E28', idx))
